@@ -17,9 +17,18 @@ Record dcase := {
 Definition all_unitb (vs : list vdecl) : bool :=
   forallb (fun v => match vd_body v with VUnit => true | _ => false end) vs.
 
+Definition fields_supportedb (fs : list fdecl) : bool := forallb (fun f => supportedb (fd_ty f)) fs.
+Definition variant_supportedb (v : vdecl) : bool :=
+  match vd_body v with
+  | VUnit => true
+  | VNamed fs => fields_supportedb fs
+  | VTuple ts => forallb supportedb ts
+  end.
+
+(* a declaration mentioning a type without a Type impl has no description (it does not compile) *)
 Definition spec_decl_type (d : decl) : option idl_ty :=
   match d_body d with
-  | DStruct fs => Some (TObject (spec_fields fs))
+  | DStruct fs => if fields_supportedb fs then Some (TObject (spec_fields fs)) else None
   | DUnitStruct => Some (TObject [])
   | DEnum vs => if all_unitb vs then Some (TEnum (map spec_variant vs)) else None
   | _ => None
@@ -27,7 +36,8 @@ Definition spec_decl_type (d : decl) : option idl_ty :=
 
 Definition spec_decl_custom (d : decl) : option custom_ty :=
   match d_body d with
-  | DStruct fs => Some (CObject (text (d_name d)) (spec_fields fs) (d_docs d))
+  | DStruct fs => if fields_supportedb fs then Some (CObject (text (d_name d)) (spec_fields fs) (d_docs d))
+                  else None
   | DUnitStruct => Some (CObject (text (d_name d)) [] (d_docs d))
   | DEnum vs => if all_unitb vs then Some (CEnum (text (d_name d)) (map spec_variant vs) (d_docs d))
                 else None
@@ -35,7 +45,10 @@ Definition spec_decl_custom (d : decl) : option custom_ty :=
   end.
 
 Definition spec_decl_errors (d : decl) : option (list ierror) :=
-  match d_body d with DEnum vs => spec_error_variants vs | _ => None end.
+  match d_body d with
+  | DEnum vs => if forallb variant_supportedb vs then spec_error_variants vs else None
+  | _ => None
+  end.
 
 Record outcome := { o_type : option idl_ty; o_custom : option custom_ty;
                     o_variants : option (list ierror) }.
